@@ -1,5 +1,6 @@
 import ParolModel.Model.Tokens
 import ParolModel.Proofs.Regex
+import ParolModel.Proofs.Tokens
 /-! # C13 — The scanner tokenizes by the documented rules
 
 "For every generated scanner and every input text, the token sequence equals the one obtained by
@@ -128,11 +129,31 @@ theorem error_token_last_iff (c : ModeCfg) (ts : List (List Nat)) (nNames : Nat)
 
 /-- "The resulting tokens do not depend on the parser's lookahead size or on when the parser
     consumes them": for every list of scanner matches (none of type EOI), every lookahead size `k`
-    and both access schedules, the model of `TokenStream` delivers exactly the matches with gaps
-    filled, followed by one EOI — a sequence in which `k` does not occur. -/
-def StreamIndepOfK : Prop :=
-  ∀ (ms : List LTok) (len k : Nat) (peek : Bool), (∀ t ∈ ms, t.ty ≠ eoiTy) →
-    ∃ fuel, deliver peek fuel (TStream.new ms len k) = some (deliveredRef ms len)
+    and both access schedules (with or without peeking at all `k` lookahead positions before each
+    consume), the model of `TokenStream` (read_tokens / ensure_buffer / take_skip_tokens / consume,
+    EOI padding) delivers exactly `deliveredRef`: the matches with the gaps filled, followed by one
+    EOI — a sequence in which neither `k` nor the schedule occurs. Mode switches cannot depend on
+    read-ahead because they happen inside the scanner at match time (`tokenizeFuel`). -/
+theorem stream_indep_of_k (ms : List LTok) (len k : Nat) (peek : Bool) (hms : ∀ t ∈ ms, t.ty ≠ eoiTy) :
+    ∃ fuel, deliver peek fuel (TStream.new ms len k) = some (deliveredRef ms len) :=
+  stream_delivers ms len k peek hms
+
+/-- Two parsers with different lookahead sizes and different access schedules see the same tokens. -/
+theorem stream_indep_of_consumption (ms : List LTok) (len k k' : Nat) (peek peek' : Bool)
+    (hms : ∀ t ∈ ms, t.ty ≠ eoiTy) :
+    ∃ f f', deliver peek f (TStream.new ms len k) = deliver peek' f' (TStream.new ms len k') ∧
+      (deliver peek f (TStream.new ms len k)).isSome :=
+  stream_indep ms len k k' peek peek' hms
+
+/-- The matches of the spec tokenizer never have the EOI type as long as no terminal has it, so the
+    hypothesis of `stream_indep_of_k` is met by every scanner description parol generates (user
+    terminals start at 5, built-in ones are 1..4). -/
+theorem toLToks_ty (modes : List ScanMode) (w : List Nat) (ts : List ScanTok) :
+    ∀ t ∈ toLToks modes w ts, ∃ u ∈ ts, t.ty = u.tok := by
+  intro t ht
+  simp only [toLToks, List.mem_map] at ht
+  obtain ⟨u, hu, rfl⟩ := ht
+  exact ⟨u, hu, rfl⟩
 
 /-! Non-vacuity -/
 
